@@ -13,18 +13,17 @@ namespace Rect
 /-- Closed form of `offset` by a non-negative amount (no `u32` saturation). -/
 theorem offset_grow (r : Rect) (k : Nat)
     (hw : r.size.w + 2 * k ≤ 4294967295) (hh : r.size.h + 2 * k ≤ 4294967295) :
-    r.offset (k : Int) =
-      ⟨⟨r.tl.x + (((r.size.w - 1) / 2 : Nat) : Int) - (((r.size.w + 2 * k - 1) / 2 : Nat) : Int),
-        r.tl.y + (((r.size.h - 1) / 2 : Nat) : Int) - (((r.size.h + 2 * k - 1) / 2 : Nat) : Int)⟩,
-       ⟨r.size.w + 2 * k, r.size.h + 2 * k⟩⟩ := by
+    r.offset (k : Int) = ⟨⟨r.tl.x - k, r.tl.y - k⟩, ⟨r.size.w + 2 * k, r.size.h + 2 * k⟩⟩ := by
   unfold offset
   have h0 : (k : Int) ≥ 0 := by omega
-  simp only [h0, if_true, withCenter, center, centerOffset, Sz.satAdd, Sz.newEqual, satAddU32,
-    Int.toNat_natCast]
+  simp only [h0, if_true, Sz.satAdd, Sz.newEqual, satAddU32, Int.toNat_natCast]
   have h1 : r.size.w + k * 2 ≤ 4294967295 := by omega
   have h2 : r.size.h + k * 2 ≤ 4294967295 := by omega
-  simp only [h1, h2, ↓reduceIte, Rect.mk.injEq, Pt.mk.injEq, Sz.mk.injEq]
-  refine ⟨⟨?_, ?_⟩, ?_, ?_⟩ <;> omega
+  simp only [h1, h2, ↓reduceIte, Rect.mk.injEq, Sz.mk.injEq]
+  refine ⟨?_, ?_, ?_⟩
+  · rw [Pt.ext_iff']; simp
+  · omega
+  · omega
 
 /-- Closed form of `offset` by a non-positive amount: the size shrinks, saturating at 0. -/
 theorem offset_shrink (r : Rect) (k : Nat)
@@ -36,9 +35,10 @@ theorem offset_shrink (r : Rect) (k : Nat)
   unfold offset
   by_cases hk : k = 0
   · subst hk
-    simp only [Int.natCast_zero, Int.neg_zero, ge_iff_le, Int.le_refl, withCenter, center,
-      centerOffset, Sz.satAdd, Sz.newEqual, satAddU32, Int.toNat_zero, Nat.zero_mul, Nat.add_zero,
-      hw, hh, ↓reduceIte, Nat.mul_zero, Nat.sub_zero]
+    simp only [Int.natCast_zero, Int.neg_zero, ge_iff_le, Int.le_refl,
+      Sz.satAdd, Sz.newEqual, satAddU32, Int.toNat_zero, Nat.zero_mul, Nat.add_zero,
+      hw, hh, ↓reduceIte, Nat.mul_zero, Nat.sub_zero, Rect.mk.injEq, and_true]
+    rw [Pt.ext_iff']; simp only [Pt.sub_x, Pt.sub_y]; omega
   · have h0 : ¬ (-(k : Int) ≥ 0) := by omega
     simp only [h0, if_false, withCenter, center, centerOffset, Sz.satSub, Sz.newEqual,
       Int.neg_neg, Int.toNat_natCast, Rect.mk.injEq, Pt.mk.injEq, Sz.mk.injEq]
@@ -83,10 +83,7 @@ instance (s : Style) (r : Rect) : Decidable (Guard s r) := by unfold Guard; exac
 
 theorem strokeArea_eq (s : Style) (r : Rect) (h : NoSat s r) :
     strokeArea s r =
-      ⟨⟨r.tl.x + (((r.size.w - 1) / 2 : Nat) : Int)
-          - (((r.size.w + 2 * s.outsideStrokeWidth - 1) / 2 : Nat) : Int),
-        r.tl.y + (((r.size.h - 1) / 2 : Nat) : Int)
-          - (((r.size.h + 2 * s.outsideStrokeWidth - 1) / 2 : Nat) : Int)⟩,
+      ⟨⟨r.tl.x - s.outsideStrokeWidth, r.tl.y - s.outsideStrokeWidth⟩,
        ⟨r.size.w + 2 * s.outsideStrokeWidth, r.size.h + 2 * s.outsideStrokeWidth⟩⟩ := by
   unfold strokeArea
   rw [s.strokeOffset_eq h.1, offset_grow r _ h.2.1 h.2.2]
